@@ -1,5 +1,7 @@
 import Abyss.Props.C01
 import Abyss.Props.C01Gen
+import Abyss.Props.GenCorollaries
+#print axioms Abyss.C01_generated_from_empty
 #print axioms Abyss.C01_history
 #print axioms Abyss.run_refines
 #print axioms Abyss.step_refines
